@@ -1483,7 +1483,14 @@ func flagGuardedBy(fn *ssa.Function, isCleanupCall func(ssa.Instruction) bool, s
 			}
 			errV := retVal(ret, len(ret.Results)-1)
 			/* Which stores of the flag can this return observe? */
-			sts := reachingStoresAt(j, flag)
+			var sts []*ssa.Store
+			for _, st := range reachingStoresAt(j, flag) {
+				/* (a store this return cannot come after does not
+				reach it: "ok = true" just before the success return) */
+				if st.Parent() != fn || canReach(locOf(st), j) {
+					sts = append(sts, st)
+				}
+			}
 			for _, leaf := range phiLeaves(errV) {
 				isErr := !isNilConst(leaf.V)
 				for _, st := range sts {
